@@ -453,6 +453,16 @@ impl Prop for C12 {
     }
     fn fixed_cases(&self) -> Vec<FixedCase> {
         vec![FixedCase {
+            name: "end-tag-renamed-to-empty",
+            finding: Some("C12-empty-tag-name-chunk"),
+            what: "EndTag::set_name(\"\") must not hand the sink a zero-length chunk in mid-stream",
+            run: Box::new(|st| {
+                let mut cfg = Cfg::default();
+                cfg.sels.push(SelSpec { sel: "*".into(), ops: vec![ScriptOp { kind: Kind::Element, nth: None, every_chunk: false, op: Op::OnEndTag(vec![Op::SetTagName(String::new())]) }], ..Default::default() });
+                let c = Case { input: b"<script>x</script>-->".to_vec(), cuts: vec![], cfg, mem_limits: vec![] };
+                explore(&c, st, 12)
+            }),
+        }, FixedCase {
             name: "comment-set-text-empty",
             finding: Some("C12-empty-comment-text-chunk"),
             what: "Comment::set_text(\"\") must not hand the sink a zero-length chunk in mid-stream",
